@@ -160,7 +160,7 @@ fn usv_union_1_1() {
     union_nm::<1, 1>()
 }
 
-//@H tier_C04=thorough props=C20,C17,C04 tier=quick kind=bounded cap=1200 bound="operand lengths (1,2)" domain="all u8 values"
+//@H tier_C04=thorough tier_C17=thorough props=C20,C17,C04 tier=quick kind=bounded cap=1200 bound="operand lengths (1,2)" domain="all u8 values"
 #[cfg_attr(kani, kani::proof)]
 #[cfg_attr(kani, kani::unwind(9))]
 #[cfg_attr(verif_replay, test)]
@@ -168,7 +168,7 @@ fn usv_union_1_2() {
     union_nm::<1, 2>()
 }
 
-//@H tier_C04=thorough props=C20,C17,C04 tier=quick kind=bounded cap=1200 bound="operand lengths (2,1)" domain="all u8 values"
+//@H tier_C04=thorough tier_C17=thorough props=C20,C17,C04 tier=quick kind=bounded cap=1200 bound="operand lengths (2,1)" domain="all u8 values"
 #[cfg_attr(kani, kani::proof)]
 #[cfg_attr(kani, kani::unwind(9))]
 #[cfg_attr(verif_replay, test)]
